@@ -278,6 +278,10 @@ pub fn scenarios(thorough: bool) -> Vec<(Scenario, usize, bool)> {
                     if step == 0.05 && max_try > depth - 2 {
                         continue;
                     }
+                    // the deepest budget of the thorough tier only on the pillar layout with the middle step
+                    if thorough && max_try == depth && (layout != 1 || step != 0.3) {
+                        continue;
+                    }
                     v.push((Scenario { layout, limits, step, max_try, pair: 0 }, k, max_try <= 3));
                     if limits == 3 && layout == 0 && max_try <= 3 {
                         v.push((Scenario { layout, limits, step, max_try, pair: 1 }, k, false));
